@@ -151,6 +151,7 @@ impl StdProc {
             font_events: vec![],
             exec_stack: vm.generate_stack_trace().len(),
             num_sources_after: vm.num_current_sources(),
+            runaway_input: false,
         }
     }
 }
